@@ -12,7 +12,7 @@ import (
 // AIMD exactly to max(1, min(limit-1, floor(limit*ratio))) and never up.
 // Bounds: limit < 2^31; rtt, in-flight arbitrary.  One symbolic product -> bit-precise FP.
 //
-//verif:harness property=C06 theory=bv tier=quick timeout=120 portfolio=1
+//verif:harness property=C06 theory=bv tier=quick timeout=120 portfolio=1 solver=cvc5
 func VerifC06_AIMD_Drop() {
 	limit := verif.Int("limit")
 	ratio := verif.Float("ratio")
